@@ -33,7 +33,7 @@ using namespace asmjit;
 // option bits of an observation (spec/isa/X86EncObs.tla uses the same numbering)
 enum : uint32_t {
   O_LOCK = 1u << 0, O_REP = 1u << 1, O_REPNE = 1u << 2, O_XACQ = 1u << 3, O_XREL = 1u << 4, O_SHORT = 1u << 5, O_LONG = 1u << 6,
-  O_MODMR = 1u << 7, O_MODRM = 1u << 8, O_VEX3 = 1u << 9, O_VEX = 1u << 10, O_EVEX = 1u << 11, O_REX = 1u << 12
+  O_MODMR = 1u << 7, O_MODRM = 1u << 8, O_VEX3 = 1u << 9, O_VEX = 1u << 10, O_EVEX = 1u << 11, O_REX = 1u << 12, O_TAKEN = 1u << 13, O_NOTTAKEN = 1u << 14
 };
 
 struct Opd {
@@ -46,6 +46,7 @@ struct Opd {
   int64_t d = 0;           // displacement / absolute address
   int64_t v = 0;           // immediate
   int fwd = 0, pad = 0;    // label: forward reference with `pad` bytes between the instruction and the label
+  int abs = 0;             // label: 1 = the target is passed as an absolute Imm address (CodeHolder with a known base address), id = target - instruction start
 };
 
 
@@ -55,7 +56,7 @@ struct Inst {
   std::vector<Opd> ops;
   int k = 0, z = 0, er = -1, sae = 0;
   uint32_t opt = 0;
-  int eo = 0;              // emitter-level encoding options: 1 = EncodingOptions::kOptimizeForSize (the executor applies it)
+  int eo = 0;              // emitter-level encoding options (the executor applies them): bit 0 kOptimizeForSize, bit 1 kPredictedJumps
 };
 
 static inline Opd R(const char* c, int id) { Opd o; o.t = 'r'; o.c = c; o.id = id; return o; }
@@ -130,6 +131,8 @@ static inline InstOptions inst_options(const Inst& ob) {
   if (ob.opt & O_VEX) io |= InstOptions::kX86_Vex;
   if (ob.opt & O_EVEX) io |= InstOptions::kX86_Evex;
   if (ob.opt & O_REX) io |= InstOptions::kX86_Rex;
+  if (ob.opt & O_TAKEN) io |= InstOptions::kTaken;
+  if (ob.opt & O_NOTTAKEN) io |= InstOptions::kNotTaken;
   if (ob.z) io |= InstOptions::kX86_ZMask;
   if (ob.er >= 0) io |= InstOptions::kX86_ER | InstOptions(uint32_t(ob.er) << 21);
   else if (ob.sae) io |= InstOptions::kX86_SAE;
@@ -156,7 +159,7 @@ static inline void write_request(vj::W& w, const Inst& ob) {
       bytes8(w, "d", o.d);
       w.kv("dv", std::to_string((long long)o.d));       // decimal text, for humans / replay only
     } else if (o.t == 'i') { bytes8(w, "v", o.v); w.kv("iv", std::to_string((long long)o.v)); }
-    else { w.kv("id", o.id).kv("fwd", o.fwd).kv("pad", o.pad); }
+    else { w.kv("id", o.id).kv("fwd", o.fwd).kv("pad", o.pad).kv("abs", o.abs); }
     w.endObj();
   }
   w.endArr();
@@ -171,6 +174,7 @@ struct FOp {
   int ibits = 0; std::string isgn; int iconst = -1; int rbits = 0; int bcst = 0; int pair = 0;
 };
 struct Form {
+  int jcc = 0;
   int id; std::string name, arch, pk, tt; bool ok; int k, z, er, sae, lock, rep, repne, xacq, xrel, modrm, esz, w, l;
   std::vector<FOp> ops;
 };
@@ -183,6 +187,7 @@ static std::vector<Form> load_forms(const char* path) {
     f.ok = v.find("ok")->b;
     auto gi = [&](const char* k) { return int(v.find(k)->i()); };
     f.k = gi("k"); f.z = gi("z"); f.er = gi("er"); f.sae = gi("sae"); f.lock = gi("lock"); f.rep = gi("rep"); f.repne = gi("repne");
+    if (v.find("jcc")) f.jcc = gi("jcc");
     f.xacq = gi("xacq"); f.xrel = gi("xrel"); f.modrm = gi("modrm"); f.esz = gi("esz"); f.w = gi("w"); f.l = gi("l");
     for (const vj::Value& o : v.find("ops")->arr) {
       FOp fo;
@@ -404,6 +409,26 @@ static void instantiate(const Form& f, int mode, size_t rot, CB&& cb) {
       else rounds = f.ok ? 8 : 2;
     }
     if (hasLabel) rounds = f.ok ? (g_gen.thorough ? 40 : 16) : 2;
+    // cross mode: every relative-branch form sees labels bound BEFORE the instruction at the distances around the rel8 limit, unbound (forward)
+    // labels and absolute Imm targets (known base address), each with every prefix-producing variant: none, rex, taken / not-taken hints
+    // (predicted jumps on), short / long; the address-size prefix comes from the explicit cx/ecx operand of the jecxz / loop rows
+    struct LRnd { int pad, fwd, abs; uint32_t opt; int eo; int omit; };
+    std::vector<LRnd> lplan;
+    if (hasLabel && g_gen.cross && f.ok) {
+      static const int back[] = {0, 1, 2, 60, 123, 124, 125, 126, 127, 128, 129, 130, 200, 32763, 70000};
+      static const int fwdp[] = {0, 1, 60, 120, 125, 126, 127, 128, 131};
+      std::vector<std::pair<uint32_t, int>> vars = {{0u, 0}};
+      if (mode == 64) vars.push_back({O_REX, 0});
+      if (f.jcc) { vars.push_back({O_TAKEN, 2}); vars.push_back({O_NOTTAKEN, 2}); vars.push_back({O_TAKEN, 0}); }
+      vars.push_back({O_SHORT, 0}); vars.push_back({O_LONG, 0});
+      for (int om = 0; om < (anyImp ? 2 : 1); om++)
+        for (auto& v : vars) {
+          for (int p : back) { lplan.push_back(LRnd{p, 0, 0, v.first, v.second, om}); lplan.push_back(LRnd{p, 0, 1, v.first, v.second, om}); }
+          for (int p : fwdp) lplan.push_back(LRnd{p, 1, 0, v.first, v.second, om});
+          for (int p : {1, 127, 128, 4096}) lplan.push_back(LRnd{p, 1, 1, v.first, v.second, om});      // absolute target after the instruction
+        }
+      rounds = lplan.size();
+    }
     size_t immRounds = 0;
     for (size_t j = 0; j < nops; j++) if (kind[j] == 'i' && f.ops[j].ibits) immRounds = std::max(immRounds, imm_pool(f.ops[j].ibits, f.ops[j].isgn).size());
     if (f.ok && !hasMem) rounds = std::max(rounds, immRounds);
@@ -414,6 +439,7 @@ static void instantiate(const Form& f, int mode, size_t rot, CB&& cb) {
       Inst ob; ob.f = f.id; ob.n = f.name; ob.m = mode;
       Rnd pr = planOf(r0);
       bool omitImp = anyImp && (r0 % 2 == 1);
+      if (!lplan.empty()) omitImp = lplan[r0].omit != 0;
       bool bad = false;
       for (size_t j = 0; j < nops && !bad; j++) {
         const FOp& fo = f.ops[j];
@@ -442,6 +468,7 @@ static void instantiate(const Form& f, int mode, size_t rot, CB&& cb) {
           static const int pads[] = {0, 1, 122, 123, 124, 125, 126, 127, 128, 129, 130, 200, 32763, 70000, 2, 60};
           Opd o; o.t = 'l'; o.pad = pads[r0 % 16]; o.fwd = (r0 / 16 + r0 / 5) % 2;
           if (o.fwd && o.pad > 1000) o.pad = 131;
+          if (!lplan.empty()) { o.pad = lplan[r0].pad; o.fwd = lplan[r0].fwd; o.abs = lplan[r0].abs; }
           ob.ops.push_back(o);
         } else {
           Opd o; o.t = 'm'; o.sz = fo.msz > 0 ? fo.msz : 0;
@@ -508,8 +535,9 @@ static void instantiate(const Form& f, int mode, size_t rot, CB&& cb) {
         if (hasImm && hasQ) ob.eo = 1;
       }
       if (pr.bank >= 0) ob.opt = (ob.opt & ~(O_REX | O_LOCK | O_XACQ | O_XREL)) | pr.opt;       // planned prefix options only
-      if (!hasMem && r0 % 4 == 2) ob.opt |= O_MODMR;
-      if (!hasMem && r0 % 8 == 5) ob.opt |= O_MODRM;
+      if (!lplan.empty()) { ob.opt = lplan[r0].opt; ob.eo = lplan[r0].eo; }
+      if (!hasMem && r0 % 4 == 2 && lplan.empty()) ob.opt |= O_MODMR;
+      if (!hasMem && r0 % 8 == 5 && lplan.empty()) ob.opt |= O_MODRM;
       cb(ob);
     }
   }
@@ -529,7 +557,7 @@ static inline Inst read_request(const vj::Value& v) {
       d.i = int(o.find("i")->i()); d.sh = int(o.find("sh")->i()); d.bc = int(o.find("bc")->i()); d.at = int(o.find("at")->i());
       d.d = strtoll(o.find("dv")->s().c_str(), nullptr, 10);
     } else if (d.t == 'i') d.v = strtoll(o.find("iv")->s().c_str(), nullptr, 10);
-    else { d.fwd = int(o.find("fwd")->i()); d.pad = int(o.find("pad")->i()); }
+    else { d.fwd = int(o.find("fwd")->i()); d.pad = int(o.find("pad")->i()); if (o.find("abs")) d.abs = int(o.find("abs")->i()); if (d.abs) d.id = int(o.find("id")->i()); }
     ob.ops.push_back(d);
   }
   return ob;
